@@ -666,3 +666,79 @@ def augment(tree: ast.AST) -> int:
                 blk[i] = ast.copy_location(ast.AugAssign(target=tgt, op=st.value.op, value=other), st)
                 n += 1
     return n
+
+
+# ---------------------------------------------------------------------------------------------------------------------
+# Local aliases of attributes of self: `q = self._q` (once, at the top level of the method, never re-bound) is read as
+# the attribute itself -- the rules reason about "the queue self._q", whatever a method calls it locally.
+
+
+def self_aliases(fn) -> dict:
+    """{local name: attribute text} for the top-level `v = self.<attr>` bindings of a method"""
+    out = {}
+    if not fn.args.args or fn.args.args[0].arg != 'self':
+        return out
+    for st in fn.body:
+        if isinstance(st, ast.Assign) and len(st.targets) == 1 and isinstance(st.targets[0], ast.Name) and isinstance(st.value, ast.Attribute):
+            chain = st.value
+            while isinstance(chain, ast.Attribute):
+                chain = chain.value
+            if isinstance(chain, ast.Name) and chain.id == 'self':
+                out[st.targets[0].id] = ast.unparse(st.value)
+    return out
+
+
+def unalias_self(tree: ast.AST, keep=None) -> int:
+    """`tree`: a module or a single function node; `keep`: alias names that are left alone (those of the confirmed tree)"""
+    n_done = 0
+    keep = keep or set()
+    fns = [tree] if isinstance(tree, (ast.FunctionDef, ast.AsyncFunctionDef)) else [x for x in ast.walk(tree) if isinstance(x, (ast.FunctionDef, ast.AsyncFunctionDef))]
+    for fn in fns:
+        if not fn.args.args or fn.args.args[0].arg != 'self':
+            continue
+        # names bound anywhere in the function (any scope below it), with counts
+        binds = Counter()
+        for x in ast.walk(fn):
+            if isinstance(x, ast.Name) and isinstance(x.ctx, (ast.Store, ast.Del)):
+                binds[x.id] += 1
+            elif isinstance(x, ast.arg):
+                binds[x.arg] += 1
+            elif isinstance(x, (ast.FunctionDef, ast.AsyncFunctionDef, ast.ClassDef)) and x is not fn:
+                binds[x.name] += 1
+            elif isinstance(x, ast.ExceptHandler) and x.name:
+                binds[x.name] += 1
+            elif isinstance(x, (ast.Global, ast.Nonlocal)):
+                for nm in x.names:
+                    binds[nm] += 2
+        stored_attrs = {ast.unparse(x) for x in ast.walk(fn) if isinstance(x, ast.Attribute) and isinstance(x.ctx, (ast.Store, ast.Del))}
+        mapping = {}
+        for i, st in enumerate(fn.body):
+            if isinstance(st, ast.Assign) and len(st.targets) == 1 and isinstance(st.targets[0], ast.Name) and binds[st.targets[0].id] == 1 and st.targets[0].id not in keep:
+                v = st.value
+                chain = v
+                ok = isinstance(chain, ast.Attribute)
+                while isinstance(chain, ast.Attribute):
+                    chain = chain.value
+                if ok and isinstance(chain, ast.Name) and chain.id == 'self':
+                    txt = ast.unparse(v)
+                    if not any(s_ == txt or txt.startswith(s_ + '.') for s_ in stored_attrs):
+                        mapping[st.targets[0].id] = (v, i)
+        if not mapping:
+            continue
+
+        class T(ast.NodeTransformer):
+            def visit_Name(self, n):
+                if isinstance(n.ctx, ast.Load) and n.id in mapping:
+                    import copy
+
+                    new = copy.deepcopy(mapping[n.id][0])
+                    for sub in ast.walk(new):
+                        ast.copy_location(sub, n)
+                    return new
+                return n
+
+        for nm, (v, i) in mapping.items():
+            fn.body[i] = ast.copy_location(ast.Pass(), fn.body[i])
+        fn.body = [T().visit(st) for st in fn.body]
+        n_done += len(mapping)
+    return n_done
